@@ -523,8 +523,8 @@ Proof.
 Qed.
 
 (* ------------------------------------------------------------------ what parse_request hands on *)
-Theorem flag_sound cx ep rq now jdb jdb' X :
-  parse_request cx ep rq now jdb = (Ok (PGeneric (Some X) true), jdb') ->
+Theorem flag_sound cx ep rq now jdb jdb' X rc :
+  parse_request cx ep rq now jdb = (Ok (PGeneric (Some X) rc true), jdb') ->
   exists ai, client_authentication cx ep rq now jdb = (Ok (Some ai), jdb')
     /\ ai_client ai = Some X /\ authenticating (ai_method ai) = true.
 Proof.
@@ -537,6 +537,43 @@ Proof.
   - destruct r as [[ai|]|e|]; try discriminate.
     destruct (ai_client ai) as [[|x c]|] eqn:Ec; intro H; inversion H; subst; try discriminate.
     exists ai. auto.
+Qed.
+
+(* the client_id the parsed request carries is the one parse_request hands on, whatever the body said *)
+Theorem request_identity cx ep rq now jdb jdb' c rc a :
+  parse_request cx ep rq now jdb = (Ok (PGeneric c rc a), jdb') -> rc = c.
+Proof.
+  unfold parse_request.
+  destruct (client_authentication cx ep rq now jdb) as [r j1] eqn:E.
+  destruct (ep_userinfo ep).
+  - destruct r as [[ai|]|e|]; try discriminate.
+    + destruct (ai_token ai); discriminate.
+    + destruct (is_cae e); discriminate.
+  - destruct r as [[ai|]|e|]; try discriminate.
+    + destruct (ai_client ai) as [[|x c0]|] eqn:Ec; intro H; inversion H; subst; reflexivity.
+    + intro H; inversion H; subst; reflexivity.
+Qed.
+
+(* a request handed on as authenticated is processed under the identity its credential proves *)
+Theorem processed_as_proved cx ep rq now jdb jdb' c rc :
+  parse_request cx ep rq now jdb = (Ok (PGeneric c rc true), jdb') ->
+  exists ai X, client_authentication cx ep rq now jdb = (Ok (Some ai), jdb')
+    /\ ai_client ai = Some X /\ c = Some X /\ rc = Some X
+    /\ authenticating (ai_method ai) = true
+    /\ credential_ok cx ep rq now jdb jdb' X (ai_method ai).
+Proof.
+  intro H. pose proof (request_identity _ _ _ _ _ _ _ _ _ H) as ->.
+  revert H. unfold parse_request.
+  destruct (client_authentication cx ep rq now jdb) as [r j1] eqn:E.
+  destruct (ep_userinfo ep).
+  - destruct r as [[ai|]|e|]; try discriminate.
+    + destruct (ai_token ai); discriminate.
+    + destruct (is_cae e); discriminate.
+  - destruct r as [[ai|]|e|]; try discriminate.
+    destruct (ai_client ai) as [[|x c0]|] eqn:Ec; intro H; inversion H; subst; try discriminate.
+    exists ai, (x :: c0). repeat split; auto.
+    match goal with Ha : authenticating _ = true |- _ =>
+      exact (proj2 (proj2 (sound _ _ _ _ _ _ _ _ E Ec Ha))) end.
 Qed.
 
 (* the audience clause holds for every JWT-based method except request_param *)
@@ -576,9 +613,10 @@ Proof.
   - inversion Hv; subst. discriminate.
 Qed.
 
-Theorem userinfo_sound cx ep rq now jdb jdb' X t :
-  parse_request cx ep rq now jdb = (Ok (PUserinfo (Some X) t), jdb') ->
+Theorem userinfo_sound cx ep rq now jdb jdb' X rc t :
+  parse_request cx ep rq now jdb = (Ok (PUserinfo (Some X) rc t), jdb') ->
   exists ai, client_authentication cx ep rq now jdb = (Ok (Some ai), jdb')
+    /\ rc = Some X
     /\ ai_client ai = Some X /\ ai_token ai = Some t
     /\ (ai_method ai = MBearerHeader \/ ai_method ai = MBearerBody)
     /\ credential_ok cx ep rq now jdb jdb' X (ai_method ai).
@@ -588,7 +626,7 @@ Proof.
   destruct (ep_userinfo ep).
   - destruct r as [[ai|]|e|]; try discriminate.
     + destruct (ai_token ai) as [t'|] eqn:Et; [|discriminate]. intro H. inversion H; subst.
-      exists ai. split; [reflexivity|]. split; [congruence|]. split; [congruence|].
+      exists ai. split; [reflexivity|]. split; [congruence|]. split; [congruence|]. split; [congruence|].
       pose proof (client_authentication_some _ _ _ _ _ _ _ E) as Hl.
       apply loop_ok in Hl as [m [jm [_ [_ [Hv _]]]]].
       assert (ai_method ai = MBearerHeader \/ ai_method ai = MBearerBody) as Hm.
